@@ -172,7 +172,7 @@ PROPS = {
             "each appearance costs exactly one transmission; dropped at zero; at most once per datagram": "theorem (full, any tie order): each_appearance_costs_one_transmission",
             "never omits a pending update that still fits; precedence to more transmissions remaining": "theorem (full): nothing_that_fits_is_omitted, higher_priority_first, priority_order (over the generated Entry::cmp)",
             "Feed/Announce/TurnUndead/Broadcast consume nothing; no-broadcast application leaves the backlog alone; only successful applications are enqueued": "theorem (full): non_piggybacking_kinds_consume_nothing, no_broadcast_leaves_backlog_untouched, only_successful_applications_are_enqueued",
-            "at most max_transmissions over the whole life of an update": "partial: follows per datagram from the lemmas above; the whole-history count is checked by search (hook snapshot of remaining transmissions) and correspondence",
+            "at most max_transmissions over the whole life of an update": "theorem (full, histories of any length): C15H.transmissions_are_conserved, C15H.at_most_max_transmissions_over_its_life (every write of an address's entry costs it exactly one transmission, only a new update about that address gives any back: Proofs/Lifetime.lean), C15H.each_write_costs_its_entry_one_transmission, and C15H.backlog_changes_only_by_enqueue_and_fill (any public call changes the instance's backlog by such operations only: Proofs/UpdReach.lean); the tie between 'entry written' and the bytes of the datagram is the per-call theorem each_appearance_costs_one_transmission",
         },
         RULE_HIST + "search: accounting oracle replaying every pure-send call against the hooked backlog (remaining transmissions): only pending updates are written, exact decrement, leave at zero, nothing that fits omitted, precedence; tight packet sizes, max_transmissions in {1,2,3,4,255}.",
         ["BinaryHeap pops a maximal element (the tie order among equal priorities is an oracle of the model, validated per datagram)"],
@@ -184,7 +184,8 @@ PROPS = {
             "each appearance costs one transmission; invalidated items leave at once": "theorem (full, arbitrary invalidation relation): each_item_costs_one_transmission, invalidated_items_leave, add_broadcast_stores_whole_item",
             "receiver hands the handler exactly the items, in order, with the sender": "theorem (one loop iteration, full): receive_loop_step",
             "broadcast(): nothing when empty; at most num_indirect_probes eligible active targets": "theorem (full): broadcast_with_empty_backlog, broadcast_targets",
-            "whole-history bound of max_transmissions per item; broadcast() stops when drained": "partial: search oracle and correspondence",
+            "whole-history bound of max_transmissions per item": "theorem (full, arbitrary handler key type and invalidation relation, histories of any length): C16H.item_written_at_most_its_transmissions, C16H.item_at_most_max_transmissions, C16H.each_item_written_costs_one_transmission (Proofs/LifetimeG.lean) and C16H.custom_backlog_changes_only_by_enqueue_and_fill (Proofs/CustomReach.lean)",
+            "broadcast() stops when drained": "partial: search oracle and correspondence",
         },
         RULE_HIST + "search: table-driven handlers (four invalidation relations, recipient deny masks), items of 1..7 bytes, hooked backlog accounting, handler call log compared with the items of every accepted datagram.",
         ["the handler derives the key from the item bytes alone (harness handlers do); BroadcastHandler does not panic"],
